@@ -299,6 +299,17 @@ def generate(tier):
             if sname.startswith("require_static") and fname != "plain":
                 continue
             add(f"cell_under_derive/generic/{sname}/{fname}", "*ext.c.borrow_mut() = Some(child);", group="cell_under_derive", ext=gext.format(a=sattr, f=fattr))
+    # client types given a no-op Collect impl by static_collect!: only sound for 'static instantiations
+    sc_ext = ("struct H2<T>(Cell<Option<T>>);\n{macro}\n"
+              "type Ext<'gc> = Gc<'gc, H2<{inst}>>;\nfn ext<'gc>(mc: &Mutation<'gc>) -> Ext<'gc> {{ Gc::new(mc, H2(Cell::new(None))) }}\nfn ext_holds<'gc>(e: &Ext<'gc>) -> bool {{ {holds} }}\n")
+    for mname, macro in (("generic", "gc_arena::static_collect!(<T> H2<T>);"), ("generic_where_clone", "gc_arena::static_collect!(<T> H2<T> where T: Clone);"),
+                         ("generic_where_copy_default", "gc_arena::static_collect!(<T> H2<T> where T: Copy, T: Default);"), ("concrete_static", "gc_arena::static_collect!(H2<Gc<'static, Child>>);")):
+        add(f"static_collect/{mname}/gc_instance", "ext.0.set(Some(child));", group="static_collect",
+            ext=sc_ext.format(macro=macro, inst="Gc<'gc, Child>", holds="{ let v = e.0.take(); let r = v.is_some(); e.0.set(v); r }"))
+    add("control/static_collect_generic_static_instance", "ext.0.set(Some(5u32)); let _ = child;", "run", "control",
+        ext=sc_ext.format(macro="gc_arena::static_collect!(<T> H2<T>);", inst="u32", holds="false"))
+    add("control/static_collect_generic_where_static_instance", "ext.0.set(Some(5u32)); let _ = child;", "run", "control",
+        ext=sc_ext.format(macro="gc_arena::static_collect!(<T> H2<T> where T: Clone);", inst="u32", holds="false"))
     for name, (body, items) in fixed.items():
         add(f"fixed/{name}", body.replace("{m}", "m"), "reject_or_run", group="fixed", items=items)
     # user-defined index types on library containers that go through a Gc dereference (index into the container, deref the Gc element)
@@ -321,7 +332,7 @@ def generate(tier):
         add(f"user_index_type/{cname}/from_mut_local", f"(&Write::from_mut(&mut {mk})[Via]).unlock().set(Some(child));", group="user_index_type", items=items)
     return {
         "probes": ps,
-        "rule": f"typed term grammar, depth <= {depth} projections: Write source {{Gc::write on the black holder, Gc::write on a white co-owner sharing its Rc/Arc/Gc fields, Write::from_mut of a reference / a clone / a local carrier (Box, Rc, Arc, Vec, array, Option, Result, VecDeque, BTreeMap, HashMap) of a reference, Write::from_static}} x {len(FIELDS)} holder fields (Lock, RefLock, OnceLock directly and behind Box, Rc, Arc, Vec, array, VecDeque, BTreeMap, HashMap, Option, Result, Gc, nested struct, and two-level nestings) x projection chains {{as_deref, as_write, index, range index, key index, field!}} typed under an over-approximate model (DerefWrite / IndexWrite assumed for every pointer and container incl. Gc) x sink by lock kind; plus fixed probes (forged Write, unsafe accessors without unsafe, Cell/RefCell fields under derive incl. require_static + bound combinations, Static<Cell>, user Unlock / DerefWrite / IndexWrite impls, user index types that deref a Gc element). Every accepted program is run: holder black in a fully marked arena (first and later cycle), fresh white child; violation = child reachable through the holder but destructed. Non-trivial = all but the 8 controls",
+        "rule": f"typed term grammar, depth <= {depth} projections: Write source {{Gc::write on the black holder, Gc::write on a white co-owner sharing its Rc/Arc/Gc fields, Write::from_mut of a reference / a clone / a local carrier (Box, Rc, Arc, Vec, array, Option, Result, VecDeque, BTreeMap, HashMap) of a reference, Write::from_static}} x {len(FIELDS)} holder fields (Lock, RefLock, OnceLock directly and behind Box, Rc, Arc, Vec, array, VecDeque, BTreeMap, HashMap, Option, Result, Gc, nested struct, and two-level nestings) x projection chains {{as_deref, as_write, index, range index, key index, field!}} typed under an over-approximate model (DerefWrite / IndexWrite assumed for every pointer and container incl. Gc) x sink by lock kind; plus fixed probes (forged Write, unsafe accessors without unsafe, Cell/RefCell fields under derive incl. require_static + bound combinations, Static<Cell>, user Unlock / DerefWrite / IndexWrite impls, user index types that deref a Gc element). Every accepted program is run: holder black in a fully marked arena (first and later cycle), fresh white child; violation = child reachable through the holder but destructed. client types covered by static_collect! (generic with / without where clause, concrete) instantiated with a pointer. Non-trivial = all but the 10 controls",
         "post": post,
         "level": "exploration",
         "assumptions": ["pinned rustc 1.95 decides acceptance", "exhaustive over the stated grammar, not over all safe programs", "accepted programs are run in one scenario family (holder black / fully marked arena, before and after a first cycle)"],
